@@ -72,6 +72,16 @@ def c05(sc, io):
                     sp_ok = (o["persist"] == "MARKET_ON_CLOSE" and book_T.get("bsp_rec"))
                     if f[1] != limit and not sp_ok:
                         res.append(("C05-limit", "passive fill of %s at %s is not at its limit %s" % (o["o"], f[1], limit), {"order": o["o"], "frag": f, "pt": T}))
+            if not cli.get("bpe", True) and any(f[0] == 0 for f in new) and o.get("placed"):
+                # matched in full by the client's simulated_full_match: only a SUCCESSFUL placement is - with best-price execution off an order
+                # priced through the best price of the book it was executed against lapses (the book in force before the executing update)
+                ups_ = sc["markets"][mi]["updates"]
+                k_ = next((j for j, x in enumerate(ups_) if x["pt"] == o["placed"]), None)
+                r_ = runner_of(ups_[k_ - 1], o["sel"]) if k_ else None
+                lad_ = (r_["atb"] if side == "BACK" else r_["atl"]) if r_ else []
+                if lad_ and ((side == "BACK" and lad_[0][0] > limit) or (side == "LAY" and lad_[0][0] < limit)):
+                    res.append(("C05-bpe", "best-price execution is off and %s was priced through the best price %s, yet it was matched in full instead of lapsing" % (o["o"], lad_[0][0]),
+                                {"order": o["o"], "frags": new, "book_pt": ups_[k_ - 1]["pt"]}))
             if arrival:
                 B = book_at(sc, mi, arrival[0][0])
                 r = runner_of(B, o["sel"]) if B else None
@@ -112,6 +122,42 @@ def c05(sc, io):
                         res.append(("C05-fok", "fill-or-kill %s average %s breaches its limit %s" % (o["o"], avg, limit), {"order": o["o"]}))
     return res
 
+
+
+def c05_available(sc, io):
+    """config.simulation_available_prices = True (outside the Coq model): a resting order is also filled from the levels of its runner's CURRENT
+    book that are at its limit or better.  What it gains at an update is bounded by what that update offers: the traded increments of the runner
+    plus the sizes of those levels - a fill from a level that is not in the book at the time of the fill breaks the bound"""
+    res = []
+    prev = {}
+    incs = {mi: increments(sc, mi) for mi in range(len(sc["markets"]))}
+    for mi, u, snap in snapshots(sc, io):
+        T = snap["pt"]
+        book_T = sc["markets"][mi]["updates"][u]
+        for o in snap["orders"]:
+            key = (mi, o["o"])
+            old = prev.get(key, [])
+            fr = [(f[0], BP(f[1]), C(f[2])) for f in o["frags"]]
+            prev[key] = fr
+            if o["otype"] != "LIMIT" or o["price"] is None or o["persist"] == "MARKET_ON_CLOSE" or book_T.get("bsp_rec"):
+                continue
+            if len(fr) < len(old) or [f[2] for f in fr[:len(old)]] != [f[2] for f in old]:
+                continue
+            limit, side = BP(o["price"]), o["side"]
+            passive = [f for f in fr[len(old):] if f[0] == T]
+            if not passive:
+                continue
+            r = runner_of(book_T, o["sel"])
+            lad = (r["atb"] if side == "BACK" else r["atl"]) if r and r.get("status", "ACTIVE") == "ACTIVE" else []
+            offered = sum(sz for p_, sz in lad if (p_ >= limit if side == "BACK" else p_ <= limit))
+            traded = sum(incs[mi][u].get(o["sel"], {}).values())
+            got = sum(f[2] for f in passive)
+            if any(f[1] != limit for f in passive):
+                res.append(("C05-limit", "passive fill of %s not at its limit %s" % (o["o"], limit), {"order": o["o"], "frags": passive, "pt": T}))
+            if got > offered + traded:
+                res.append(("C05-availability", "%s gained %s at the update published at %s, whose book offers %s at its limit %s or better and reports %s traded: filled from levels that are not there at the time of the fill"
+                            % (o["o"], got, T, offered, limit, traded), {"order": o["o"], "frags": passive, "pt": T, "ladder": lad}))
+    return res
 
 
 def increments(sc, mi):
